@@ -466,7 +466,15 @@ fn rejected_calls(cfg: &Cfg, rng: &mut Rng) {
         let (mut f, peer) = crate::c01::setup_frontend(c, maxq);
         let mut lent = Lent::default();
         // negative mmap handle is a separate class below
-        let out = op.exec(&mut f, &mut lent);
+        // (bounded: a call that is wrongly sent may then wait for an ack the raw peer never writes)
+        let (res, _blocked) = util::exec_bounded(&mut f, op, &mut lent, util::PeerKind::Raw);
+        let out = match res {
+            Ok(o) => o,
+            Err(p) => {
+                report::violation(&format!("C02:{}:panic", op.name()), jo! {"panic" => p.msg, "at" => p.location}, cfg.replay(&format!("rejected:{ci}")));
+                continue;
+            }
+        };
         let bytes = sys::inq(peer.as_raw_fd());
         report::eval(1);
         let cls = class.split(':').next().unwrap_or(class);
